@@ -116,7 +116,7 @@ def invalid_cases(draw):
     keys = valid_keys(ps)
     key, kind, meta = keys[draw(st.integers(0, len(keys) - 1))]
     return {"proc": ps, "key": key, "kind": kind, "mutation": draw(st.sampled_from(MUTATIONS)),
-            "entry": draw(st.sampled_from(["set", "obs_seq_product", "obs_seq_sequential", "obs_dask", "override", "override"])),
+            "entry": draw(st.sampled_from(["set", "obs_seq_product", "obs_seq_sequential", "obs_dask", "override", "override", "calibration"])),
             "value": draw(st.sampled_from([1, 2.5, "0.25", "7"]))}
 
 
@@ -317,6 +317,17 @@ def body_invalid(case, rec):
             proc.set(bad, v)
         elif entry == "override":
             pyxel.run_mode(mode=Exposure(readout=Readout(times=[1.0])), detector=proc.detector, pipeline=proc.pipeline, override_dct={bad: v})
+        elif entry == "calibration":
+            from pyxel.calibration import Algorithm, Calibration
+            from pyxel.pipelines import FitnessFunction
+
+            np.save(rec.tmp / "target.npy", np.zeros((3, 3)))
+            cal = Calibration(target_data_path=[str(rec.tmp / "target.npy")], fitness_function=FitnessFunction("pyxel.calibration.fitness.sum_of_abs_residuals"),
+                              algorithm=Algorithm(type="sade", generations=1, population_size=8),
+                              parameters=[ParameterValues(key=bad, values="_", boundaries=(0.1, 0.9))], result_type="pixel",
+                              target_fit_range=(0, 3, 0, 3), result_fit_range=(0, 3, 0, 3), pygmo_seed=1)
+            with scheduler("synchronous"):
+                pyxel.run_mode(mode=cal, detector=proc.detector, pipeline=proc.pipeline, with_inherited_coords=True)
         else:
             mode = "sequential" if entry == "obs_seq_sequential" else "product"
             obs = Observation(parameters=[ParameterValues(key=bad, values=[v, 3])], readout=Readout(times=[1.0]), mode=mode, with_dask=entry == "obs_dask")
